@@ -27,7 +27,22 @@ from rustscan import mask, Source, AnchorLost
 LIFTS = {
     "ipfix_sets": {
         "src": "expanded", "mod": "variable_versions::ipfix", "impl": r"impl<'nom> IPFix", "fn": "parse_be",
+        "select": ("mapres", 0),
         "name": "vf_ipfix_sets", "captures": [("parser", "&mut IPFixParser")], "item": "FlowSet",
+    },
+    # the two field loops of a V9 options data record: closures capturing `&mut field` (a slice iterator over the
+    # template's scope / option field specifiers)
+    "v9_od_scope": {
+        "src": "expanded", "mod": "variable_versions::v9", "impl": r"impl<'nom> OptionsData", "fn": "parse_be",
+        "select": ("many0", 0), "generics": "<'a, 'b>",
+        "name": "vf_v9_od_scope", "captures": [("field", "&mut std::slice::Iter<'b, OptionsTemplateScopeField>")],
+        "item": "ScopeDataField",
+    },
+    "v9_od_opts": {
+        "src": "expanded", "mod": "variable_versions::v9", "impl": r"impl<'nom> OptionsData", "fn": "parse_be",
+        "select": ("many0", 1), "generics": "<'a, 'b>",
+        "name": "vf_v9_od_opts", "captures": [("field", "&mut std::slice::Iter<'b, TemplateField>")],
+        "item": "OptionDataField",
     },
 }
 
@@ -116,21 +131,31 @@ def build(name, repo, expanded_text):
         rng = s.find_mod(rng, part)
     fs, bo, bc = s.find_fn_in_impls(rng, spec["impl"], spec["fn"])
     body = s.text[bo:bc + 1]
-    m = mask(body)
-    mm = re.search(r"\bmap_res\(", m)
-    if not mm or m.count("map_res(") != 1:
-        raise AnchorLost("lift %s: expected exactly one map_res in %s" % (name, spec["fn"]))
-    op = mm.end() - 1
-    cl = match_close(m, op)
-    p_arg, clo = split_top_comma(body[op + 1:cl])
-    cm = re.match(r"\s*\|\s*(\w+)\s*\|\s*(.*)$", clo, re.S)
-    if not cm:
-        raise AnchorLost("lift %s: map_res closure not `|x| ..`" % name)
-    x, f_body = cm.group(1), cm.group(2).strip()
-    fm = mask(f_body)
-    m0 = re.search(r"\bmany0\(\s*complete\(", fm)
-    if not m0 or fm.count("many0(") != 1:
-        raise AnchorLost("lift %s: map_res closure is not many0(complete(..))" % name)
+    kind, nth = spec.get("select", ("mapres", 0))
+    if kind == "mapres":
+        m = mask(body)
+        mm = re.search(r"\bmap_res\(", m)
+        if not mm or m.count("map_res(") != 1:
+            raise AnchorLost("lift %s: expected exactly one map_res in %s" % (name, spec["fn"]))
+        op = mm.end() - 1
+        cl = match_close(m, op)
+        p_arg, clo = split_top_comma(body[op + 1:cl])
+        cm = re.match(r"\s*\|\s*(\w+)\s*\|\s*(.*)$", clo, re.S)
+        if not cm:
+            raise AnchorLost("lift %s: map_res closure not `|x| ..`" % name)
+        x, f_body = cm.group(1), cm.group(2).strip()
+        fm = mask(f_body)
+        m0 = re.search(r"\bmany0\(\s*complete\(", fm)
+        if not m0 or fm.count("many0(") != 1:
+            raise AnchorLost("lift %s: map_res closure is not many0(complete(..))" % name)
+    else:
+        # the nth `many0(complete(..))(ARG)` expression of the function body itself
+        x, f_body = None, body
+        fm = mask(f_body)
+        ms = list(re.finditer(r"\bmany0\(\s*complete\(", fm))
+        if nth >= len(ms):
+            raise AnchorLost("lift %s: many0(complete(..)) #%d not found in %s" % (name, nth, spec["fn"]))
+        m0 = ms[nth]
     o1 = fm.index("(", m0.start())
     c1 = match_close(fm, o1)
     o2 = fm.index("(", o1 + 1)
@@ -138,6 +163,8 @@ def build(name, repo, expanded_text):
     if fm[c2 + 1:c1].strip():
         raise AnchorLost("lift %s: many0 has more than the complete(..) argument" % name)
     elem_clo = f_body[o2 + 1:c2].strip()
+    if mask(elem_clo).startswith("{") and match_close(mask(elem_clo), 0) == len(elem_clo) - 1:
+        elem_clo = elem_clo[1:-1].strip()          # nom-derive wraps the user's closure in a block
     em = re.match(r"\|\s*(\w+)\s*\|\s*(.*)$", elem_clo, re.S)
     if not em:
         raise AnchorLost("lift %s: element parser is not a one-parameter closure" % name)
@@ -152,6 +179,7 @@ def build(name, repo, expanded_text):
     nm = spec["name"]
     item = spec["item"]
     top_body = f_body[:m0.start()] + "%s__many0(%s%s)" % (nm, arg, cap_args) + f_body[c1 + 1 + am.end():]
+    gen = spec.get("generics", "<'a>")
     ver, nd = nom_dir(repo)
     log = {}
     p0, b0, raw0 = nom_closure_body(os.path.join(nd, "src/multi/mod.rs"), "many0")
@@ -174,20 +202,21 @@ def build(name, repo, expanded_text):
     err = "nom::Err<nom::error::Error<&'a [u8]>>"
     out = []
     out.append("// synthetic source built by tools/lift.py (rule R17) -- see the header of that file\n")
-    out.append("fn %s<'a>(%s: &'a [u8]%s) -> Result<Vec<%s>, %s> {\n    %s\n}\n"
-               % (nm, x, cap_params, item, err, top_body))
+    if kind == "mapres":
+        out.append("fn %s%s(%s: &'a [u8]%s) -> Result<Vec<%s>, %s> {\n    %s\n}\n"
+                   % (nm, gen, x, cap_params, item, err, top_body))
     def fn_of(suffix, pm, ret, b):
         # a `mut x: I` closure parameter becomes an immutable parameter `x__in` and a local `let mut x = x__in;`
         # (Verus resolves a `mut` parameter inside `ensures` to its final value)
         if pm.group(1):
-            return ("fn %s__%s<'a>(%s__in: &'a [u8]%s) -> %s {\n    let mut %s = %s__in;%s}\n"
-                    % (nm, suffix, pm.group(2), cap_params, ret, pm.group(2), pm.group(2), b))
-        return "fn %s__%s<'a>(%s: &'a [u8]%s) -> %s {%s}\n" % (nm, suffix, pm.group(2), cap_params, ret, b)
+            return ("fn %s__%s%s(%s__in: &'a [u8]%s) -> %s {\n    let mut %s = %s__in;%s}\n"
+                    % (nm, suffix, gen, pm.group(2), cap_params, ret, pm.group(2), pm.group(2), b))
+        return "fn %s__%s%s(%s: &'a [u8]%s) -> %s {%s}\n" % (nm, suffix, gen, pm.group(2), cap_params, ret, b)
     out.append(fn_of("many0", pm0, "nom::IResult<&'a [u8], Vec<%s>>" % item, b0))
     out.append(fn_of("complete", pm1, "nom::IResult<&'a [u8], %s>" % item, b1))
-    out.append("fn %s__elem<'a>(%s: &'a [u8]%s) -> nom::IResult<&'a [u8], %s> {\n    %s\n}\n"
-               % (nm, ep, cap_params, item, e_body))
-    meta = {"lift": name, "from": "%s %s %s::%s (map_res closure)" % (spec["src"], spec["mod"], spec["impl"], spec["fn"]),
+    out.append("fn %s__elem%s(%s: &'a [u8]%s) -> nom::IResult<&'a [u8], %s> {\n    %s\n}\n"
+               % (nm, gen, ep, cap_params, item, e_body))
+    meta = {"lift": name, "from": "%s %s %s::%s (%s #%d)" % (spec["src"], spec["mod"], spec["impl"], spec["fn"], kind, nth),
             "nom_version": ver,
             "nom_many0_sha256": hashlib.sha256(raw0.encode()).hexdigest()[:16],
             "nom_complete_sha256": hashlib.sha256(raw1.encode()).hexdigest()[:16],
